@@ -58,13 +58,13 @@ TTL_B = "key 1 byte, value 1 byte, T_save and T_load symbolic (ns resolution, 0 
 K("c09_ttl_future_rest", "rdb", ["C09"], tier="quick", timeout=900,
   desc="TTL across save/load, region deadline > load time: the saved wall-clock deadline is the exact one to clock granularity (<2 ms early, never late) and the loader passes on exactly deadline - load time (ms) as the TTL",
   encodes=TTL_ENC, bounds=TTL_B, stubs=ENG + WALL + RKVT, assumptions=RDB_IO, native_replay=False)
-K("c09_ttl_elapsed_kf", "rdb", ["C09"], tier="thorough", timeout=900, expect="kf:KF-C09-ttl-elapsed",
+K("c09_ttl_elapsed_kf", "rdb", ["C09"], tier="thorough", timeout=900, expect="hold",
   desc="TTL across save/load, region deadline <= load time (expired while the server was down): the key must be absent; ferrous loads it with ttl None, i.e. as a persistent key",
   encodes=TTL_ENC, bounds=TTL_B, stubs=ENG + WALL + RKVT, assumptions=RDB_IO, native_replay=False)
 
 # ------------------------------------------------------------------ C10
 ALLOCW = ["alloc::vec::from_elem (vec![x; n]) and Vec::with_capacity -> wrapper: CHECK mode asserts n <= bytes present in the input; MODEL mode builds the vector with a concrete size per case and, for n > bytes present, a vector longer than the input so that the following read_exact fails as in the real code"]
-K("c10_alloc_read_string_kf", "rdb", ["C10", "C06"], tier="thorough", timeout=600, expect="kf:KF-C10-read-string-alloc",
+K("c10_alloc_read_string_kf", "rdb", ["C10", "C06"], tier="thorough", timeout=600, expect="hold",
   desc="allocation obligation at RdbReader::read_string: the vec![0u8; len] is sized by the length field of the file without comparing it with the bytes present (up to 4 GiB zeroed per string header)",
   encodes=["RdbReader::read_string", "RdbReader::read_length"], bounds="5 arbitrary bytes (1-, 2- and 5-byte length encodings); unwind 14",
   stubs=FMT + RX + ALLOCW, assumptions=RDB_IO, native_replay=False)
